@@ -27,13 +27,46 @@ func VH_C12_Bind() {
 	args := ""
 	ctx := map[string]interface{}{}
 	av := make([]string, na)
+	special, skind := -1, 0
+	if na > 0 {
+		special, skind = symChoice(na), symChoice(7) // one argument position gets one of the 7 kinds
+	}
 	for j := 0; j < na; j++ {
 		if j > 0 {
 			args += ", "
 		}
-		args += "a" + strconv.Itoa(j+1)
-		av[j] = symStringIn(1, vhValAlphabet)
-		ctx["a"+strconv.Itoa(j+1)] = av[j]
+		kind := 0
+		if j == special {
+			kind = skind
+		}
+		// what is passed: a variable holding a string, the literal null, a variable holding nil, an
+		// undefined variable, an empty string, zero, false - an argument that is passed binds the
+		// parameter even when its value is null or falsy (the default is for omitted arguments only)
+		switch kind {
+		case 0:
+			args += "a" + strconv.Itoa(j+1)
+			av[j] = symStringIn(1, vhValAlphabet)
+			ctx["a"+strconv.Itoa(j+1)] = av[j]
+		case 1:
+			args += "null"
+			av[j] = ""
+		case 2:
+			args += "nilvar"
+			ctx["nilvar"] = nil
+			av[j] = ""
+		case 3:
+			args += "undefinedvar"
+			av[j] = ""
+		case 4:
+			args += "''"
+			av[j] = ""
+		case 5:
+			args += "0"
+			av[j] = "0"
+		case 6:
+			args += "false"
+			av[j] = "false"
+		}
 	}
 	outerP1 := symBool() // an outer variable with the name of the first parameter
 	if outerP1 {
